@@ -95,8 +95,8 @@ type divergence struct {
 	Filter string   `json:"filter,omitempty"`
 	Exp    []string `json:"exp"`
 	Got    []string `json:"got"`
-	HasPin bool     `json:"has_pin"`       // the pinned transcription is predicted to answer differently from Exp ...
-	Pin    []string `json:"pin"`           // ... namely this
+	HasPin bool     `json:"has_pin"` // the pinned transcription is predicted to answer differently from Exp ...
+	Pin    []string `json:"pin"`     // ... namely this
 	Detail string   `json:"detail,omitempty"`
 	Diff   []string `json:"diff,omitempty"`
 }
@@ -111,6 +111,7 @@ type output struct {
 	NonTrivial   int          `json:"nontrivial"`   // expected set neither empty nor all live ids
 	NonEmpty     int          `json:"nonempty"`
 	DivTotal     int          `json:"div_total"`
+	DivPinned    int          `json:"div_pinned"` // divergences equal to the prediction for the pinned transcription
 	Divergences  []divergence `json:"divergences"`
 	Errors       []string     `json:"errors"`
 	Samples      []string     `json:"samples"`
@@ -130,8 +131,8 @@ func opts(dir string) engine.Options {
 const indexName = "ix"
 
 type runner struct {
-	p   profile
-	out *output
+	p     profile
+	out   *output
 	e     *engine.Engine
 	dir   string
 	oprng *rand.Rand // choices among equivalent entry points (separate stream: filter renderings do not depend on it)
@@ -416,16 +417,43 @@ func (r *runner) judge(b *behaviour, si int, rng *rand.Rand) (ndiv int) {
 	for _, m := range st.Exp {
 		liveAll |= m
 	}
+	// a divergence that is exactly what the specification predicts for the pinned transcription is
+	// kept MaxDiv times per state (and counted); any other divergence is always kept
+	npinned, nother := 0, 0
+	subset := func(a, b []string) bool {
+		for _, x := range a {
+			found := false
+			for _, y := range b {
+				found = found || x == y
+			}
+			if !found {
+				return false
+			}
+		}
+		return true
+	}
 	add := func(d divergence) {
 		r.out.DivTotal++
 		ndiv++
-		if ndiv <= r.p.MaxDiv {
-			d.ID, d.Step, d.Op = b.ID, si, st.Op
-			if d.Pin == nil {
-				d.Pin = []string{}
+		pinned := d.HasPin && ((d.Kind == "filter_mismatch" && subset(d.Got, d.Pin) && subset(d.Pin, d.Got)) ||
+			(d.Kind == "search_not_subset" && subset(d.Got, d.Pin)))
+		if pinned {
+			r.out.DivPinned++
+			npinned++
+			if npinned > r.p.MaxDiv {
+				return
 			}
-			r.out.Divergences = append(r.out.Divergences, d)
+		} else {
+			nother++
+			if nother > 60 {
+				return
+			}
 		}
+		d.ID, d.Step, d.Op = b.ID, si, st.Op
+		if d.Pin == nil {
+			d.Pin = []string{}
+		}
+		r.out.Divergences = append(r.out.Divergences, d)
 	}
 	query := []float32{0.4, 0.3, 0.2, 0.1}
 	for fi := range r.p.Filters {
